@@ -15,6 +15,8 @@ import (
 	"strings"
 	"sync"
 
+	"google.golang.org/protobuf/proto"
+
 	colarspb "github.com/open-telemetry/otel-arrow/api/experimental/arrow/v1"
 	"github.com/open-telemetry/otel-arrow/pkg/otel/arrow_record"
 )
@@ -24,12 +26,21 @@ type Program struct {
 	History []Letter `json:"history"`
 	// ConsLimit > 0: the consumer is created with WithMemoryLimit(ConsLimit)
 	ConsLimit uint64 `json:"cons_limit,omitempty"`
+	// Damage: the batch DamageAt reaches the consumer damaged (consumer error paths)
+	Damage   *Fault `json:"damage,omitempty"`
+	DamageAt int    `json:"damage_at,omitempty"`
+	// Heavy programs (a batch refused at the id width: producer error paths) take part in the
+	// free-running pass and are interleaved with one partner only
+	Heavy bool `json:"heavy,omitempty"`
 }
 
 func (p Program) String() string {
 	s := unitKey(Unit{Opts: p.Opts, History: p.History}, len(p.History)-1)
 	if p.ConsLimit > 0 {
 		s += fmt.Sprintf(" [consumer limit %d]", p.ConsLimit)
+	}
+	if p.Damage != nil {
+		s += fmt.Sprintf(" [batch %d damaged: %s]", p.DamageAt, p.Damage)
 	}
 	return s
 }
@@ -88,6 +99,10 @@ func (r *progRun) step() {
 		}
 	} else {
 		bar := r.bars[i]
+		if bar != nil && r.p.Damage != nil && r.p.DamageAt == i {
+			bar = proto.Clone(bar).(*colarspb.BatchArrowRecords)
+			applyFault(bar, *r.p.Damage, nil)
+		}
 		if bar == nil {
 			r.obs = append(r.obs, "decode skipped")
 		} else {
@@ -160,6 +175,20 @@ func pairPrograms(thorough bool) []Program {
 			}
 		}
 	}
+	// error paths. Consumer: a damaged batch (the call fails after part of the batch was
+	// loaded) between healthy batches.  Producer: a batch refused half-way at the id width.
+	for _, sig := range sigs() {
+		a := historyAlphabet(sig, false)
+		foreign := map[string]colarspb.ArrowPayloadType{"traces": colarspb.ArrowPayloadType_LOGS, "logs": colarspb.ArrowPayloadType_SPANS, "metrics": colarspb.ArrowPayloadType_SPANS}[sig]
+		for _, f := range []Fault{{Kind: "foreign", Type: int32(foreign)}, {Kind: "dupend", I: 0}, {Kind: "relabel", I: 1, Type: int32(colarspb.ArrowPayloadType_UNKNOWN)}} {
+			f := f
+			ps = append(ps, Program{Opts: DefaultOptions(), History: []Letter{a[10], a[2]}, Damage: &f, DamageAt: 0})
+			if thorough {
+				ps = append(ps, Program{Opts: DefaultOptions(), History: []Letter{a[2], a[10], a[1]}, Damage: &f, DamageAt: 1})
+			}
+		}
+		ps = append(ps, Program{Opts: DefaultOptions(), History: []Letter{{Sig: sig, Big: &Big{Kind: "items", N: 65537}}, a[2]}, Heavy: true})
+	}
 	// programs whose consumer carries its own options come last: the solo runs
 	// of the default consumers above are taken before any of these exists
 	for _, sig := range sigs() {
@@ -218,6 +247,9 @@ func pairWorker(tier string, shard, nshard int) *WorkerOut {
 	var tuples [][]int
 	for a := range ps {
 		for b := a; b < len(ps); b++ {
+			if (ps[a].Heavy || ps[b].Heavy) && a != 0 {
+				continue
+			}
 			tuples = append(tuples, []int{a, b})
 			if ps[b].ConsLimit > 0 && ps[a].ConsLimit == 0 {
 				tuples = append(tuples, []int{b, a}) // the consumer with options is constructed first
